@@ -40,7 +40,8 @@ MODULES = {
         dict(name='wf_field_data', file=WF, cls='Wavefront', func='_generate_field_data',
              types=dict(_REC, **_TILT_T), ignore_calls=['self.optic.trace'],
              calls={'self._get_path_length': 'wf_get_path_length', 'self._correct_tilt': 'wf_tilt_dist'},
-XX, file=WF, cls='OPD', func='rms', types={'self.data': 'wfdata'}, **_K),
+             opaque_calls=dict(_TILT_O), opaque_pairs=_VIG, **_K),
+        dict(name='wf_opd_rms', file=WF, cls='OPD', func='rms', types={'self.data': 'wfdata'}, **_K),
         dict(name='wf_rms_vs_field', file=RV, cls='RmsWavefrontErrorVsField', func='_rms_wavefront_error',
              types={'self.data': 'wfdata', 'self.num_fields': 'int', 'self.wavelengths': 'list'}, **_K),
     ],
